@@ -79,7 +79,7 @@ impl FixtureDatabase {
                         self.collect_names_from_expr(target, &mut temp_names);
                     }
                     for name in temp_names {
-                        local_vars.insert(name, line);
+                        Self::record_local_binding(local_vars, name, line);
                     }
                 }
                 Stmt::AnnAssign(ann_assign) => {
@@ -88,7 +88,7 @@ impl FixtureDatabase {
                     let mut temp_names = HashSet::new();
                     self.collect_names_from_expr(&ann_assign.target, &mut temp_names);
                     for name in temp_names {
-                        local_vars.insert(name, line);
+                        Self::record_local_binding(local_vars, name, line);
                     }
                 }
                 Stmt::AugAssign(aug_assign) => {
@@ -97,7 +97,7 @@ impl FixtureDatabase {
                     let mut temp_names = HashSet::new();
                     self.collect_names_from_expr(&aug_assign.target, &mut temp_names);
                     for name in temp_names {
-                        local_vars.insert(name, line);
+                        Self::record_local_binding(local_vars, name, line);
                     }
                 }
                 Stmt::For(for_stmt) => {
@@ -106,7 +106,7 @@ impl FixtureDatabase {
                     let mut temp_names = HashSet::new();
                     self.collect_names_from_expr(&for_stmt.target, &mut temp_names);
                     for name in temp_names {
-                        local_vars.insert(name, line);
+                        Self::record_local_binding(local_vars, name, line);
                     }
                     self.collect_local_variables(&for_stmt.body, line_index, local_vars);
                 }
@@ -116,7 +116,7 @@ impl FixtureDatabase {
                     let mut temp_names = HashSet::new();
                     self.collect_names_from_expr(&for_stmt.target, &mut temp_names);
                     for name in temp_names {
-                        local_vars.insert(name, line);
+                        Self::record_local_binding(local_vars, name, line);
                     }
                     self.collect_local_variables(&for_stmt.body, line_index, local_vars);
                 }
@@ -135,7 +135,7 @@ impl FixtureDatabase {
                             let mut temp_names = HashSet::new();
                             self.collect_names_from_expr(optional_vars, &mut temp_names);
                             for name in temp_names {
-                                local_vars.insert(name, line);
+                                Self::record_local_binding(local_vars, name, line);
                             }
                         }
                     }
@@ -149,7 +149,7 @@ impl FixtureDatabase {
                             let mut temp_names = HashSet::new();
                             self.collect_names_from_expr(optional_vars, &mut temp_names);
                             for name in temp_names {
-                                local_vars.insert(name, line);
+                                Self::record_local_binding(local_vars, name, line);
                             }
                         }
                     }
@@ -163,6 +163,15 @@ impl FixtureDatabase {
                 _ => {}
             }
         }
+    }
+
+    /// Record that `name` is bound on `line`, keeping the EARLIEST binding line: a later
+    /// re-assignment must not hide the fact that the name was already bound before the use.
+    fn record_local_binding(local_vars: &mut HashMap<String, usize>, name: String, line: usize) {
+        local_vars
+            .entry(name)
+            .and_modify(|first| *first = (*first).min(line))
+            .or_insert(line);
     }
 
     /// Visit a statement and check for undeclared fixture references.
